@@ -38,6 +38,12 @@ Proof. exact preproc_no_panic. Qed.
 Theorem c09_defines_no_panic : forall defs, exists pv, parse_defines defs = Ok pv.
 Proof. exact parse_defines_no_panic. Qed.
 
+(** validateShorthand is total: every string yields a shorthand byte or one
+    of its two diagnostics (the empty shorthand, which `scene <NBSP> ...`
+    delivers because \S accepts what TrimSpace removes, included). *)
+Theorem c09_shorthand_no_panic : forall s, validate_shorthand s <> ShPanic.
+Proof. exact shorthand_no_panic. Qed.
+
 (** Whenever the diagnostic names a position, that file opens to a content
     that has that line (the one exception, stated: the failed first read of a
     directory is reported at line 1 of that directory); every entry of the
@@ -107,6 +113,10 @@ Proof. eexists. vm_compute. repeat split. Qed.
 Example c09_ex_edit_before_fix_panicked :
   edit_split_before_fix [x73; x2f; x61; x62] = EditPanic /\ edit_split [x73; x2f; x61; x62] = EditInvalid.
 Proof. exact edit_before_fix_panicked. Qed.
+
+Example c09_ex_shorthand_len_gt_panics :
+  validate_shorthand_len_gt [] = ShPanic /\ validate_shorthand [] = ShBadLength.
+Proof. exact shorthand_len_gt_panics. Qed.
 
 (** [Panic] and [OutOfFuel] are real outcomes of the model: wrapErr on a
     reader that has recorded no line (the state the read-error fix removed)
